@@ -147,6 +147,10 @@ class NamespaceMixin(object):
         self.symbols[name] = node
         return node
 
+    def parse_scope(self):
+        """Scope which declarations of this node are parsed in."""
+        return self
+
     def add_declaration(self, decl, **kwargs):
         """parse decl and add corresponding node.
         decl - declaration
@@ -155,7 +159,7 @@ class NamespaceMixin(object):
            cxx_template -
         """
         # parse declaration to find out what it is.
-        fullast = declast.check_decl(decl, namespace=self)
+        fullast = declast.check_decl(decl, namespace=self.parse_scope())
         template_parameters = []
         if isinstance(fullast, declast.Template):
             # Create list of template parameter names
@@ -932,6 +936,13 @@ class BlockNode(AstNode, NamespaceMixin):
     def unqualified_lookup(self, name):
         """Look for symbols within parent. """
         return self.parent.unqualified_lookup(name)
+
+    def parse_scope(self):
+        """A block only groups declarations: they are parsed in the
+        enclosing library, namespace or class, which is what makes
+        a constructor or destructor inside a block of a class one.
+        """
+        return self.parent.parse_scope()
 
 
 ######################################################################
